@@ -246,6 +246,18 @@ func (c *TermCtx) mk(op, name string, sort *Sort, args []*Term, bound []*Term, i
 	return t
 }
 
+func sanitizeSym(s string) string {
+	var sb strings.Builder
+	for _, r := range s {
+		if r >= 'a' && r <= 'z' || r >= 'A' && r <= 'Z' || r >= '0' && r <= '9' || r == '_' {
+			sb.WriteRune(r)
+		} else {
+			sb.WriteRune('_')
+		}
+	}
+	return sb.String()
+}
+
 func smtSym(name string) string {
 	ok := true
 	for _, r := range name {
@@ -309,6 +321,20 @@ func (c *TermCtx) UF(name string, ret *Sort, args ...*Term) *Term {
 	ps := make([]*Sort, len(args))
 	for i, a := range args {
 		ps[i] = a.Sort
+	}
+	// the same name used at different sorts (instantiations of a generic function): one symbol per signature
+	if f, ok := c.funcs[name]; ok {
+		same := f.Ret == ret && len(f.Params) == len(ps)
+		for i := 0; same && i < len(ps); i++ {
+			same = f.Params[i] == ps[i]
+		}
+		if !same {
+			alt := name
+			for _, p := range ps {
+				alt += "_" + sanitizeSym(p.Name)
+			}
+			name = alt + "_to_" + sanitizeSym(ret.Name)
+		}
 	}
 	c.DeclareFun(name, ps, ret)
 	return c.App(name, ret, args...)
